@@ -358,6 +358,16 @@ def outer_env_rules(index: RepoIndex, rep, rule: str) -> None:
                   f'OuterEnv.{prop} does not return {want} computed at the time of the read (a '
                   f'cached conversion ignores a representation switch or a new state)',
                   f'convert {prop}')
+        if prop == 'state':
+            vnode = view(index, m)[0]
+            obs_reads = [n for n in ast.walk(vnode) if isinstance(n, ast.Attribute)
+                         and n.attr == 'observation'
+                         and src(w.expand(n.value)) == 'self.inner_env']
+            rep.check(not obs_reads, rule, OUTER, 'OuterEnv.state', m.node.lineno,
+                      '; '.join(src(n) for n in obs_reads) or 'OuterEnv.state',
+                      'reading the state also reads inner_env.observation, which generates (and '
+                      'memoises) an observation: a pure state read consumes randomness',
+                      'state read does not touch the observation')
         st = [e for e in w.events if e.kind in ('attrstore', 'store', 'augstore')]
         rep.check(not st, rule, OUTER, f'OuterEnv.{prop}', m.node.lineno,
                   '; '.join(src(e.stmt) for e in st) or prop,
